@@ -723,20 +723,23 @@ Proof.
   exists l, rest. repeat split; reflexivity.
 Qed.
 
-Lemma one_kind_external bs tg : one_kind bs = Some tg ->
-  tg = TagExternal /\ exists names, xall_names bs = Some names /\ NoDup names.
+Lemma one_kind_external bs : one_kind bs = Some TagExternal ->
+  exists names, xall_names bs = Some names /\ NoDup names.
 Proof.
-  unfold one_kind. destruct (one_external bs) eqn:E; [|discriminate]. intro H. injection H as <-.
-  split; [reflexivity|]. unfold one_external in E. destruct bs as [|b r]; [discriminate|].
-  destruct (xall_names (b :: r)) as [names|]; [|discriminate]. exists names. split; [reflexivity|].
-  clear -E. induction names as [|x l IH]; [constructor|]. cbn [nodup_names] in E.
-  apply andb_true_iff in E. destruct E as [E1 E2]. constructor; [|exact (IH E2)].
-  intro Hin. apply negb_true_iff in E1. assert (mem_ustr x l = true); [|congruence].
-  unfold mem_ustr. apply existsb_exists. exists x. split; [exact Hin|apply ustr_eqb_refl].
+  unfold one_kind. destruct (one_external bs) eqn:E.
+  - intros _. unfold one_external in E. destruct bs as [|b r]; [discriminate|].
+    destruct (xall_names (b :: r)) as [names|]; [|discriminate]. exists names. split; [reflexivity|].
+    clear -E. induction names as [|x l IH]; [constructor|]. cbn [nodup_names] in E.
+    apply andb_true_iff in E. destruct E as [E1 E2]. constructor; [|exact (IH E2)].
+    intro Hin. apply negb_true_iff in E1. assert (mem_ustr x l = true); [|congruence].
+    unfold mem_ustr. apply existsb_exists. exists x. split; [exact Hin|apply ustr_eqb_refl].
+  - destruct bs as [|b r]; [discriminate|]. destruct (tobjs (b :: r)) as [L|]; [|discriminate].
+    destruct (ext_on_tobjs L); [discriminate|]. destruct (one_adjacent L) as [[tg ct]|]; [discriminate|].
+    destruct (one_internal L); discriminate.
 Qed.
 
 (* structural induction that also reaches the lone property of every branch of a oneOf *)
-Definition PropP (P : schema -> Prop) (b : schema) : Prop := forall v sc, sch_props b = [(v, sc)] -> P sc.
+Definition PropP (P : schema -> Prop) (b : schema) : Prop := forall v sc, In (v, sc) (sch_props b) -> P sc.
 
 Lemma schema_ind_p (P : schema -> Prop) :
   (forall b, P (SBool b)) ->
@@ -749,7 +752,7 @@ Proof.
   intros HB HO.
   assert (H : forall s, P s /\ PropP P s).
   { apply schema_ind'.
-    - intro b. split; [apply HB|]. intros v sc H. discriminate H.
+    - intro b. split; [apply HB|]. intros v sc H. destruct H.
     - intros ty fmt enum cst nv sv ik items ai mni mxi uq props req ap mnp mxp allo anyo oneo no ref dflt title
              IHitems _ IHprops IHap _ _ IHone _. split.
       + apply HO.
@@ -758,7 +761,7 @@ Proof.
         * destruct ap; [exact (proj1 IHap)|exact I].
         * destruct oneo as [bs|]; [|exact I]. cbn [OForall] in *.
           eapply Forall_impl; [|exact IHone]. intros a Ha. exact (proj2 Ha).
-      + intros v sc Hx. cbn [sch_props] in Hx. subst props. exact (proj1 (Forall_inv IHprops)). }
+      + intros v sc Hx. cbn [sch_props] in Hx. rewrite Forall_forall in IHprops. exact (proj1 (IHprops _ Hx)). }
   intro s. apply H.
 Qed.
 
@@ -1047,39 +1050,30 @@ Section Main.
   Definition prop_names (base : ustring) (props : list (ustring * schema)) : list ustring :=
     flat_map (fun kv => names_of cls (snd kv) (prop_type_name cls base (fst kv))) props.
 
-  (* the fixpoints over the branches of a oneOf that names_of / frag / byval_refs contain *)
-  Definition one_fold {X} (f : ustring -> schema -> X) (dflt : X) (b : schema) : X :=
-    match b with
-    | SObj _ _ _ _ _ _ _ _ _ _ _ _ bprops _ _ _ _ _ _ _ _ _ _ _ =>
-        match bprops with
-        | [(v, sc)] => f v sc
-        | _ => dflt
-        end
-    | SBool _ => dflt
-    end.
-  Definition one_names (nm' : name) : list schema -> list ustring :=
+  (* the fixpoints over the branches of a oneOf that names_of / frag contain *)
+  Definition one_names (tg : tagty) (nm' : name) : list schema -> list ustring :=
     fix go (l : list schema) {struct l} : list ustring :=
       match l with
       | [] => []
-      | b :: r => one_fold (fun v sc => names_of cls sc (append_name nm' v)) [] b ++ go r
+      | b :: r => branch_fold cls tg nm' (names_of cls) (@app ustring) [] b ++ go r
       end.
-  Definition one_frags : list schema -> bool :=
+  Definition one_frags (tg : tagty) : list schema -> bool :=
     fix go (l : list schema) {struct l} : bool :=
       match l with
       | [] => true
-      | b :: r => one_fold (fun v sc => frag cls keys sc) true b && go r
+      | b :: r => branch_fold cls tg (NRequired []) (fun sc _ => frag cls keys sc) andb true b && go r
       end.
 
   Definition frag_kind (k : kind) (items : list schema) (props : list (ustring * schema))
              (req : list ustring) (ap : option schema) (oneo : option (list schema)) : bool :=
     match k with
-    | KOne _ =>
+    | KOne tg =>
         match oneo with
         | Some bs =>
-            match xall_names bs with
+            match variant_names tg bs with
             | Some names => match Sanitize.variant_idents cls names with Sanitize.Ok _ => true | _ => false end
             | None => false
-            end && payloads_ok bs && one_frags bs
+            end && branches_ok cls tg bs && one_frags tg bs && proved_tag tg
         | None => false
         end
     | KEnum raws => match Sanitize.variant_idents cls raws with Sanitize.Ok _ => true | _ => false end
@@ -1105,7 +1099,7 @@ Section Main.
   Definition sub_names (k : kind) (nm' : name) (items : list schema) (props : list (ustring * schema))
              (ap : option schema) (oneo : option (list schema)) : list ustring :=
     match k with
-    | KOne _ => match oneo with Some bs => one_names nm' bs | None => [] end
+    | KOne tg => match oneo with Some bs => one_names tg nm' bs | None => [] end
     | KStruct _ => match type_name cls nm' with Some base => prop_names base props | None => [] end
     | KMap => match ap with Some vs => names_of cls vs (value_name nm') | None => [] end
     | KVec c => flat_map (fun it => names_of cls it (seq_item_name cls c nm')) items
@@ -1297,11 +1291,12 @@ Section Main.
     - exfalso. exact (HT Hf _ _ (append_name_some nm v Hnm) Hc).
   Qed.
 
-  Lemma one_frags_cons b r : one_frags (b :: r) = one_fold (fun v sc => frag cls keys sc) true b && one_frags r.
+  Lemma one_frags_cons tg b r :
+    one_frags tg (b :: r) = branch_fold cls tg (NRequired []) (fun sc _ => frag cls keys sc) andb true b && one_frags tg r.
   Proof. reflexivity. Qed.
 
   Lemma conv_xbranches_total nm : name_opt nm <> None -> forall bs names,
-    Forall (PayP Tot) bs -> xall_names bs = Some names -> one_frags bs = true ->
+    Forall (PayP Tot) bs -> xall_names bs = Some names -> one_frags TagExternal bs = true ->
     forall s0, conv_xbranches cvf nm bs s0 <> None.
   Proof.
     intros Hnm. induction bs as [|b r IH]; intros names HT Hn Hf s0; [discriminate|].
@@ -1311,7 +1306,7 @@ Section Main.
     - rewrite conv_xbranches_simple, (xsimple_sch_spec es l Hj Hne).
       destruct (conv_xbranches cvf nm r s0) as [[[vs2 d2] s2]|] eqn:Hrr; [discriminate|].
       exfalso. exact (IH rest (Forall_inv_tail HT) Hr Hf2 s0 Hrr).
-    - rewrite conv_xbranches_typed. cbn [one_fold xbranch] in Hf1.
+    - rewrite conv_xbranches_typed. cbn [branch_fold xbranch] in Hf1.
       destruct (conv_xvar cvf nm v sc s0) as [[[vd deny] sa]|] eqn:Hv.
       + destruct (conv_xbranches cvf nm r sa) as [[[vs2 d2] s2]|] eqn:Hrr; [discriminate|].
         exfalso. exact (IH rest (Forall_inv_tail HT) Hr Hf2 sa Hrr).
@@ -1334,7 +1329,9 @@ Section Main.
     destruct k as [| | | |mx mn pat|r|raws|deny| | |c|c|r| |tg]; cbn [conv_kind]; try discriminate.
     9: { (* KOne *)
       subst tg. rewrite Hn. cbn [frag_kind] in Hfk. destruct oneo as [bs|]; [|discriminate].
+      apply andb_true_iff in Hfk. destruct Hfk as [Hfk _].
       apply andb_true_iff in Hfk. destruct Hfk as [Hfk Hfr]. apply andb_true_iff in Hfk. destruct Hfk as [Hid _].
+      cbn [variant_names] in Hid.
       destruct (xall_names bs) as [names|] eqn:Hnames; [|discriminate].
       destruct (conv_xbranches cvf nm bs s0) as [[[rvs deny] s1]|] eqn:Hc;
         [|exfalso; exact (conv_xbranches_total nm Hnm bs names HTo Hnames Hfr s0 Hc)].
@@ -1406,7 +1403,8 @@ Section Main.
         - destruct Hcases as [(l & tt & _ & _ & _ & Hk)|(_ & _ & _ & _ & _ & _ & _ & _ & _ & _ & _ & _ & _ & [(r & _ & Hk)|[(_ & Hk)|(bs & tg' & _ & _ & Hk & Hok)]])];
             try discriminate Hk.
           + apply kind_of_type_inv in Hk. destruct Hk as (_ & _ & _ & _ & _ & _ & _ & []).
-          + injection Hk as ->. exact (proj1 (one_kind_external bs tg' Hok)). }
+          + clear - Hf. cbn [frag_kind] in Hf. destruct oneo; [|discriminate].
+            apply andb_true_iff in Hf. destruct Hf as [_ Hp]. destruct tg; try discriminate Hp. reflexivity. }
       assert (Hin : name_opt (inner_name nm) <> None).
       { destruct nm; cbn [inner_name name_opt]; try discriminate. exact Hnm. }
       destruct nl; cbn [conv_node].
